@@ -40,6 +40,16 @@ def viol(rep, signature, what, replay):
     return False
 
 
+def symbols_validated():
+    """Does the source refuse wrap symbols that are not one column wide? (regenerated flag)"""
+    from ..core import LEAN
+    try:
+        t = open(os.path.join(LEAN, "DeltaModel", "Generated", "WrapConsts.lean")).read()
+    except OSError:
+        return False
+    return "def wrapSymbolWidthChecked : Bool := true" in t
+
+
 def limited_hook(ctx):
     """The hooked binary under an address-space limit: a non-terminating wrap loop grows
     memory without bound."""
@@ -278,7 +288,10 @@ def part_wrap_line(ctx, rep, hook, mdl, seg):
                 reqs.append(req)
                 cases.append(case)
     # (2) random longer lines: CJK, emoji sequences, combining marks, tabs, zero-width
-    symsets = [DEFAULT_SYMS, ("+", "<", ">"), ("日", "↴", "…"), ("↵", "↴", "本"), ("​", "↴", "…")]
+    # wrap symbols of exactly one column: what delta's option check lets through (the extractor reads that
+    # check: Generated.wrapSymbolWidthChecked / Props.C07.wrap_symbols_validated); symbols of width 0/2
+    # are tried on the real binary only, which must refuse them
+    symsets = [DEFAULT_SYMS, ("+", "<", ">"), ("»", "«", "›")]
     for _ in range(ctx.n(1500, 60000)):
         secs = gen_random_line(rng)
         lw = rng.choice([0, 1, 2, 3, 4, 5, 6, 7, 8, 10, 13, 20, 33, 64, 70, 140])
@@ -409,7 +422,7 @@ def part_block(ctx, rep, hook, mdl, seg):
             sides.append(lines)
         allsecs = [t for lines in sides for (_, syn, dif) in lines for t in syn + dif]
         seg.many(allsecs)
-        bsyms = DEFAULT_SYMS if rng.random() < 0.9 else rng.choice([("日", "↴", "…"), ("​", "↴", "…"), ("↵", "本", "…")])
+        bsyms = DEFAULT_SYMS if rng.random() < 0.9 else rng.choice([("+", "<", ">"), ("»", "«", "›")])
         fields = [f_cfg(seg, maxl, rng.choice([0, 370, 1000]), bsyms), str(lw[0]), str(lw[1]), str(len(al))]
         for m, p in al:
             fields += ["-" if m is None else str(m), "-" if p is None else str(p)]
@@ -714,8 +727,17 @@ def gen_diff(rng):
     ext = rng.choice(["txt", "txt", "rs", "py", "md"])
     kind = rng.choice(["ascii", "mixed", "mixed", "zw"])
     hunks, out = [], [f"diff --git a/f.{ext} b/f.{ext}", "index 1111111..2222222 100644", f"--- a/f.{ext}", f"+++ b/f.{ext}"]
-    o, n = rng.randrange(1, 40), None
-    n = o + rng.randrange(0, 3)
+    if rng.random() < 0.7:
+        o = rng.randrange(1, 40)
+    else:
+        o = rng.choice([97, 100, 996, 1003, 9993, 9998, 10001, 12345, 99996, 100002])
+    r_ = rng.random()
+    if r_ < 0.6:
+        n = o + rng.randrange(0, 3)
+    elif r_ < 0.8:
+        n = max(1, o - rng.choice([60, 950, 2000, 9500, 95000]))     # old numbers have more digits
+    else:
+        n = o + rng.choice([60, 950, 9500, 95000])                   # new numbers have more digits
     for _ in range(rng.choice([1, 1, 2])):
         body = []
         for _ in range(rng.randrange(1, 5)):
@@ -896,15 +918,30 @@ def tab_width(case):
     return 8
 
 
-def side_text_widths(case):
-    """Text columns of the left and the right panel (panel width minus gutter minus marker)."""
+def number_field_widths(case):
+    """Per hunk: width of the line-number field, max(4, digits of the largest line number of the hunk)."""
+    out = []
+    for o, n, body in case["hunks"]:
+        oc = sum(1 for t, _ in body if t in " -")
+        nc = sum(1 for t, _ in body if t in " +")
+        out.append(max(4, len(str(max(o + oc, n + nc)))))
+    return out
+
+
+def panel_widths(case):
     width = case["width"]
     half = width // 2
     a = case["extra"]
     spaces = "--line-fill-method" in a and a[a.index("--line-fill-method") + 1] == "spaces"
-    right = half + (1 if (width % 2 == 1 and not spaces) else 0)
-    gut = 5 + (1 if case["markers"] else 0)
-    return half - gut, right - gut
+    return half, half + (1 if (width % 2 == 1 and not spaces) else 0)
+
+
+def side_text_widths(case):
+    """Text columns of the left and the right panel (panel width minus gutter minus marker), for the
+    narrowest number field of the diff."""
+    pl, pr = panel_widths(case)
+    gut = min(number_field_widths(case) or [4]) + 1 + (1 if case["markers"] else 0)
+    return pl - gut, pr - gut
 
 
 def oracle_binary(ctx, rep, seg, case, rc, err, rows):
@@ -963,11 +1000,14 @@ def oracle_binary(ctx, rep, seg, case, rc, err, rows):
     lsym, rsym, psym = case["syms"]
     eff_max = 0 if case["wrap_max_lines"] == "unlimited" else int(case["wrap_max_lines"]) + 1
     # ---- geometry, row by row
+    nfw = number_field_widths(case)
+    pl_, pr_ = panel_widths(case)
+    mk_ = 1 if case["markers"] else 0
     rowinfo = []
     for r in rows:
         left, right, total, exact = split_panels(seg, r, width)
-        ml = re.match(r"^([ 0-9]{4})" + DELIM, left)
-        mr = re.match(r"^([ 0-9]{4})" + DELIM, right)
+        ml = re.match(r"^([ 0-9]{4,})" + DELIM, left)
+        mr = re.match(r"^([ 0-9]{4,})" + DELIM, right)
         cls = ":truncated-row-with-wide-cluster" if ("→" in r and has_wide) else ""
         if total > width:
             viol(rep, "sbs:row-wider-than-width" + cls, f"row is {total} columns wide, --width {width}", dict(replay, row=r))
@@ -977,36 +1017,46 @@ def oracle_binary(ctx, rep, seg, case, rc, err, rows):
             viol(rep, "sbs:right-panel-column" + cls, f"right panel does not start at column {half}", dict(replay, row=r))
             rep.case(key=key, nontrivial=True)
             return
-        rowinfo.append((ml.group(1).strip(), left[ml.end():], mr.group(1).strip(), right[mr.end():]))
+        fws = (len(ml.group(1)), len(mr.group(1)))
+        if fws[0] != fws[1] or fws[0] not in nfw:
+            viol(rep, "sbs:number-field-width", f"line-number fields are {fws} columns wide, expected one of {sorted(set(nfw))} on both sides",
+                 dict(replay, row=r))
+            rep.case(key=key, nontrivial=True)
+            return
+        rowinfo.append((ml.group(1).strip(), left[ml.end():], mr.group(1).strip(), right[mr.end():], fws[0]))
     # ---- content: lines per side, in order, fragments re-joined
     exp_left = [(t, x) for _, _, body in case["hunks"] for t, x in body if t in " -"]
     exp_right = [(t, x) for _, _, body in case["hunks"] for t, x in body if t in " +"]
     exp_nums_l = [o + k for o, _, body in case["hunks"] for k in range(sum(1 for t, _ in body if t in " -"))]
     exp_nums_r = [n + k for _, n, body in case["hunks"] for k in range(sum(1 for t, _ in body if t in " +"))]
     nontrivial = False
-    for side, exp, nums, lw in ((0, exp_left, exp_nums_l, lwl), (1, exp_right, exp_nums_r, lwr)):
-        emax = 1 if lw <= 1 else eff_max
+    for side, exp, nums in ((0, exp_left, exp_nums_l), (1, exp_right, exp_nums_r)):
         lines = []
         for info in rowinfo:
             num, text = (info[0], info[1]) if side == 0 else (info[2], info[3])
             if case["markers"]:
                 text = text[1:] if text else text
             if num:
-                lines.append([int(num), [text]])
+                lines.append([int(num), [text], info[4]])
             elif lines and lines[-1][1][-1].rstrip(" ").endswith((lsym, rsym)):
                 # a row that follows a wrap symbol on this side continues that line
                 lines[-1][1].append(text)
             # else: the empty half of a row whose other side holds a line
-        if [n for n, _ in lines] != nums:
+        if [x[0] for x in lines] != nums:
             viol(rep, "sbs:lines-per-side", "side %s shows lines %s, the hunks have %s" %
-                 ("LR"[side], [n for n, _ in lines][:12], nums[:12]), replay)
+                 ("LR"[side], [x[0] for x in lines][:12], nums[:12]), replay)
             rep.case(key=key, nontrivial=True)
             return
-        for (num, frags), (tag, src) in zip(lines, exp):
+        for (num, frags, fw), (tag, src) in zip(lines, exp):
             want = src.replace("\t", " " * tw)
+            # text columns of this line: panel minus its number field, delimiter and marker column;
+            # an unchanged line is wrapped to the narrower of the two text widths, on both sides
+            tl, tr = pl_ - fw - 1 - mk_, pr_ - fw - 1 - mk_
+            lw_line = min(tl, tr) if tag == " " else (tl, tr)[side]
+            emax = 1 if lw_line <= 1 else eff_max
             nontrivial = nontrivial or len(frags) > 1
             truncated = frags[-1].rstrip(" ").endswith("→")
-            joined = ""
+            pieces = []
             for k, fr in enumerate(frags):
                 fr = fr.rstrip(" ")
                 last = k == len(frags) - 1
@@ -1014,52 +1064,52 @@ def oracle_binary(ctx, rep, seg, case, rc, err, rows):
                     fr = re.sub(r"^ *" + re.escape(psym), "", fr)
                 if not last:
                     fr = fr[:-len(lsym)]
-                joined += fr
-            unfit = lw >= 2 and too_wide(want, lw)
+                pieces.append(fr)
+            joined = "".join(pieces)
+            unfit = lw_line >= 2 and too_wide(want, lw_line)
             # progress: a row that ends in a wrap symbol carries at least one cluster of the line
-            empties = [k for k, fr in enumerate(frags[:-1]) if fr.rstrip(" ")[:-len(lsym)] == ""]
+            empties = [k for k, fr in enumerate(pieces[:-1]) if fr == ""]
             if empties and want.strip(" "):
                 viol(rep, "sbs:empty-wrapped-row" + (":cluster-wider-than-text-width-minus-symbol" if unfit else ""),
                      f"line {num}: row {empties[0]} holds only the wrap symbol", replay)
                 rep.case(key=key, nontrivial=True)
                 return
-            if unfit:
-                # a cluster that cannot stand next to the wrap symbol in this panel: the statement
-                # cannot hold for this line by construction; only termination, geometry and
-                # progress are required
-                rep.count("binary:line-with-unfit-cluster")
-                continue
+            vis = lambda t: "".join(g for g, w in seg.one(t) if w > 0)
             if truncated:
-                got = joined[:-1]
                 limit_hit = emax > 0 and len(frags) >= emax
                 if not limit_hit:
-                    viol(rep, "sbs:truncated-before-wrap-limit" + (":cluster-wider-than-text-width-minus-symbol" if unfit else ""),
-                         f"line {num} is cut (→) after {len(frags)} rows, limit {emax or 'none'}", replay)
-                    rep.case(key=key, nontrivial=True)
-                    return
+                    # Without a limit (or below it) a line may be cut in exactly one situation: at the
+                    # start of a row the next cluster does not fit next to the one-column wrap symbol
+                    # (no lossless wrapping exists then; delta stops and cuts with the visible mark).
+                    before = vis("".join(pieces[:-1]))
+                    wantv = vis(want)
+                    rest = wantv[len(before):] if wantv.startswith(before) else None
+                    nxt = seg.one(rest)[0] if rest else None
+                    stuck = emax == 0 and lw_line >= 2 and nxt is not None and nxt[1] + 1 > lw_line
+                    if not stuck:
+                        viol(rep, "sbs:truncated-before-wrap-limit",
+                             f"line {num} is cut (→) after {len(frags)} rows, limit {emax or 'none'}, and the next "
+                             f"cluster {nxt!r} would fit next to the wrap symbol (text width {lw_line})", replay)
+                        rep.case(key=key, nontrivial=True)
+                        return
+                    rep.count("binary:cut-because-cluster-cannot-stand-next-to-symbol")
                 # what precedes the mark is a prefix of the line; the cut may have replaced the
                 # first half of a wide character by a blank
-                vis = lambda t: "".join(g for g, w in seg.one(t) if w > 0)
-                got, wantv = vis(got), vis(want)
+                got, wantv = vis(joined[:-1]), vis(want)
                 g2 = got.rstrip(" ")
                 ok = wantv.startswith(got) or wantv.startswith(g2) or (got.endswith(" ") and wantv.startswith(got[:-1]))
             else:
                 j = joined.rstrip(" ")
                 ok = j == want.rstrip(" ") or (want.startswith(j) and seg.width(want[len(j):].rstrip(" ")) == 0)
             if not ok:
-                cls = ""
-                if unfit:
-                    cls = ":cluster-wider-than-text-width-minus-symbol"
-                elif truncated and has_wide:
-                    cls = ":truncated-row-with-wide-cluster"
-                viol(rep, "sbs:line-not-reproduced" + cls,
+                viol(rep, "sbs:line-not-reproduced",
                      f"line {num} side {'LR'[side]}: fragments {frags!r} do not give back {want!r}", replay)
                 rep.case(key=key, nontrivial=True)
                 return
     # ---- unchanged lines are on both sides of the same row
     ctx_nums = [(o + sum(1 for t, _ in body[:k] if t in " -"), n + sum(1 for t, _ in body[:k] if t in " +"))
                 for o, n, body in case["hunks"] for k, (t, _) in enumerate(body) if t == " "]
-    both = [(int(i0), int(i2)) for i0, _, i2, _ in rowinfo if i0 and i2]
+    both = [(int(x[0]), int(x[2])) for x in rowinfo if x[0] and x[2]]
     for pair in ctx_nums:
         if pair not in both:
             viol(rep, "sbs:context-line-not-on-one-row", f"unchanged line {pair} is not on both sides of one row", replay)
@@ -1125,6 +1175,12 @@ def replay(ctx, rep, obj):
         oracle_binary(ctx, rep, seg, c2, rc, err.decode("utf-8", "replace"), rows)
     elif "request" in case:
         req = case["request"]
+        if op in ("wrap.line", "wrap.block") and "syms" in case and symbols_validated() \
+                and any(seg.width(x) != 1 for x in case["syms"]):
+            # recorded before delta refused such symbols: wrap_line cannot be reached with them any more
+            rep.count("replay:outside-validated-domain(wrap symbol not one column)")
+            rep.notes["replay"] = "case lies outside the domain the source validates (wrap symbols of one column); not evaluated"
+            return
         m = mdl.ask([req])[0] if mdl else None
         if m == "HANG":
             got = confirm_hang(ctx, rep, req, case)
